@@ -71,26 +71,21 @@ fn c14_outside_and_adjacent(depth: u8, delta: u8, hash: u64, c: u64) -> bool {
   touches
 }
 
-/// external edge: `c` = any cell of depth+delta (universally quantified), k = symbolic index in the sorted list
-pub fn p_c14_external(depth: u8, delta: u8, hash: u64, c: u64, k: u32) {
+/// external edge: `c` = any cell of depth+delta (universally quantified), k = symbolic index in the list
+pub fn p_c14_external(depth: u8, delta: u8, hash: u64, c: u64, k: u32, sorted: bool) {
   let dd = depth + delta;
   if !(delta >= 1 && depth as u32 + delta as u32 <= 29 && hash < spec_n_hash(depth) && c < spec_n_hash(dd)) { return; }
-  let e = hp::nested::external_edge(depth, hash, delta);
-  let s = hp::nested::external_edge_sorted(depth, hash, delta);
-  assert!(e.len() == s.len(), "C14: external_edge and external_edge_sorted have different lengths");
-  let mut in_e = 0u32;
-  let mut in_s = 0u32;
+  let e = if sorted { hp::nested::external_edge_sorted(depth, hash, delta) } else { hp::nested::external_edge(depth, hash, delta) };
+  let mut n_in = 0u32;
   let mut t = 0usize;
   while t < e.len() {
-    if e[t] == c { in_e += 1; }
-    if s[t] == c { in_s += 1; }
+    if e[t] == c { n_in += 1; }
     t += 1;
   }
   let expected = c14_outside_and_adjacent(depth, delta, hash, c);
-  assert!(in_e <= 1 && in_s <= 1, "C14: external edge lists a cell twice");
-  assert!((in_e == 1) == expected, "C14: external edge is not exactly the set of outside cells adjacent to the cell");
-  assert!((in_s == 1) == expected, "C14: sorted external edge is not exactly the set of outside cells adjacent to the cell");
-  if (k as usize) + 1 < s.len() { assert!(s[k as usize] < s[k as usize + 1], "C14: sorted external edge is not strictly increasing"); }
+  assert!(n_in <= 1, "C14: external edge lists a cell twice");
+  assert!((n_in == 1) == expected, "C14: external edge is not exactly the set of outside cells adjacent to the cell");
+  if sorted && (k as usize) + 1 < e.len() { assert!(e[k as usize] < e[k as usize + 1], "C14: sorted external edge is not strictly increasing"); }
 }
 
 fn c14_card(x: u8) -> Cardinal { match x { 0 => Cardinal::S, 1 => Cardinal::E, 2 => Cardinal::N, _ => Cardinal::W } }
